@@ -580,7 +580,9 @@ Definition Q_SVCS := [S_SSO; S_SLO; S_ACS; S_ARS; S_ATTR; S_AUTHZ].
 Definition Q_BINDINGS := [B_POST; B_REDIRECT; B_SOAP; B_SIMPLESIGN].
 Definition Q_DESCS := [s2l "idpsso"; s2l "spsso"; s2l "attribute_authority"; s2l "pdp"; U_ANY].
 Definition Q_USES := [U_SIGNING; U_ENCRYPTION; U_ANY].
-Definition Q_NAMES := [ENTITY_CATEGORY; EC_SUPPORT; s2l "urn:x:other"; s2l "urn:x:absent"].
+(* the two category names, two unrelated ones, and two near misses of the category name (one more character, other case) *)
+Definition Q_NAMES := [ENTITY_CATEGORY; EC_SUPPORT; s2l "urn:x:other"; s2l "urn:x:absent";
+                       s2l "http://macedir.org/entity-category/"; s2l "HTTP://MACEDIR.ORG/ENTITY-CATEGORY"].
 Definition Q_INDEXES := [None; Some (s2l "1"); Some (s2l "2")].
 Definition Q_WD := [s2l "idpsso"; s2l "spsso"; s2l "attribute_authority"; s2l "pdp"; s2l "affiliation"].
 
